@@ -383,3 +383,6 @@ def run(chk, repo):
            "yield outside its with): with two overlapping activations of "
            "one group object the older exit closes the newer one's "
            "mappings, freeing FMMUs that are still live")
+
+# added rules (appended to the explanation the evidence file carries)
+EXPLANATION += (" " + 'Added during the build (DESIGN.md 4.31, second table): (R20.8) map_fmmu by abstract execution on all slot tables of 1-4 FMMUs over {free, owner 0, owner x}: a free slot is claimed, held while mapped, restored afterwards, its own register block written - or the mapping fails.')
